@@ -83,41 +83,6 @@ theorem saveF_pre (c : Cfg σ μ) (fs : FS) (G : Ghost σ) (s : σ) (sf : Option
     obtain ⟨h1, h2, h3⟩ := harmless_ops c fs G l hh (JPN.inv h)
     exact ⟨h1, J_congr c h2 h3 h⟩
 
-theorem callF_pre (c : Cfg σ μ) (fs : FS) (G : Ghost σ) (mem : Mem σ) (sf : Option SaveFault) (cl : Call μ)
-    (h : J c fs G) :
-    AllPre (Inv c) fs G (callStepF c mem sf cl).2.1 ∧
-      J c (applyEvs fs (callStepF c mem sf cl).2.1) (G.run (callStepF c mem sf cl).2.1) := by
-  cases cl with
-  | «mut» m =>
-    simp only [callStepF]
-    split
-    · split
-      · exact saveF_pre c fs G _ sf h
-      · exact J_nochange c fs G h
-    · exact J_nochange c fs G h
-  | setAsync => exact J_nochange c fs G h
-  | setSync =>
-    simp only [callStepF]
-    split
-    · exact J_nochange c fs G h
-    · split
-      · exact saveF_pre c fs G _ sf h
-      · exact J_nochange c fs G h
-
-theorem callsF_pre (c : Cfg σ μ) (fs : FS) (G : Ghost σ) (mem : Mem σ) (cls : List (Call μ × Option SaveFault))
-    (h : J c fs G) :
-    AllPre (Inv c) fs G (runCallsF c mem cls).2 ∧
-      J c (applyEvs fs (runCallsF c mem cls).2) (G.run (runCallsF c mem cls).2) := by
-  induction cls generalizing fs G mem with
-  | nil => exact J_nochange c fs G h
-  | cons cl rest ih =>
-    simp only [runCallsF]
-    obtain ⟨h1, h2⟩ := callF_pre c fs G mem cl.2 cl.1 h
-    obtain ⟨h3, h4⟩ := ih _ _ (callStepF c mem cl.2 cl.1).1 h2
-    refine ⟨AllPre_append h1 h3, ?_⟩
-    rw [applyEvs_append, Ghost.run_append]
-    exact h4
-
 /-! ## `__commit` with faults -/
 
 theorem commitF_lock (fs : FS) (v : Bool) (cf : CF) : (applyOps fs (commitF fs v cf)) .lock = fs .lock := by
@@ -214,6 +179,105 @@ theorem commitF_false_pre (c : Cfg σ μ) (fs : FS) (G : Ghost σ) (cf : CF) (h 
       cases p <;> cases uf <;>
         simp [commitF, discardOps, hn, AllPre, applyEv, applyOp, applyOps, Inv, FS.set] <;> close_inv
 
+/-! ## the between-calls invariant with the `__uncommittedTrusted` flag -/
+
+/-- untrusted instance (no save of its own yet): the committed file is what it loaded, the uncommitted file is a
+left-over that is detectably broken or a snapshot saved since the last error-free finalize -/
+def JU (c : Cfg σ μ) (fs : FS) (G : Ghost σ) : Prop :=
+  ∃ x, PickleOK c (fs .pickle) x ∧ Adm G x ∧ G.last = x ∧ NewOK c (fs .new) G
+
+def JT (c : Cfg σ μ) (fs : FS) (G : Ghost σ) (t : Bool) : Prop := if t then J c fs G else JU c fs G
+
+theorem JU.inv {c : Cfg σ μ} {fs : FS} {G : Ghost σ} (h : JU c fs G) : Inv c fs G := by
+  obtain ⟨x, hp, ha, _, hn⟩ := h
+  exact ⟨x, hp, ha, hn⟩
+
+theorem JT.inv {c : Cfg σ μ} {fs : FS} {G : Ghost σ} {t : Bool} (h : JT c fs G t) : Inv c fs G := by
+  cases t
+  · exact JU.inv h
+  · exact JPN.inv h
+
+theorem JT_congr (c : Cfg σ μ) {fs fs' : FS} {G : Ghost σ} {t : Bool} (hp : fs' .pickle = fs .pickle)
+    (hn : fs' .new = fs .new) (h : JT c fs G t) : JT c fs' G t := by
+  cases t
+  · unfold JT JU at h ⊢
+    simp only [Bool.false_eq_true, if_false] at h ⊢
+    rw [hp, hn]; exact h
+  · exact J_congr c hp hn h
+
+/-- a performed save from any state satisfying the invariant establishes `J` -/
+theorem save_pre_inv (c : Cfg σ μ) (fs : FS) (G : Ghost σ) (s : σ) (h : Inv c fs G) :
+    AllPre (Inv c) fs G (saveEvs c s) ∧ J c (applyEvs fs (saveEvs c s)) (G.run (saveEvs c s)) := by
+  have hi : InvPN c (fs .pickle) (fs .new) G := h
+  obtain ⟨x, hp, ha, _⟩ := h
+  simp only [saveEvs, AllPre, applyEv, applyOp, applyEvs, Ghost.run, List.foldl, Ghost.step, Inv, J]
+  simp [FS.set]
+  have hj : JPN c (fs .pickle) (some ⟨encS c s, false⟩) (G.step (.saved s)) :=
+    ⟨x, hp, Adm_saved s ha, Or.inr ⟨s, false, rfl, rfl, List.mem_cons_self⟩⟩
+  exact ⟨⟨hi, InvPN_saved s hi, JPN.inv hj⟩, hj⟩
+
+theorem JT_save (c : Cfg σ μ) (fs : FS) (G : Ghost σ) (t : Bool) (s : σ) (sf : Option SaveFault) (h : JT c fs G t) :
+    AllPre (Inv c) fs G (saveF c s sf).1 ∧
+      JT c (applyEvs fs (saveF c s sf).1) (G.run (saveF c s sf).1) (t || sf.isNone) := by
+  cases sf with
+  | none =>
+    obtain ⟨h1, h2⟩ := save_pre_inv c fs G s (JT.inv h)
+    refine ⟨h1, ?_⟩
+    simp only [Option.isNone_none, Bool.or_true]
+    exact h2
+  | some f =>
+    obtain ⟨l, hl, hh⟩ := saveF_fault_harmless c s f
+    rw [hl, applyEvs_mapop, Ghost.run_mapop]
+    obtain ⟨h1, h2, h3⟩ := harmless_ops c fs G l hh (JT.inv h)
+    refine ⟨h1, ?_⟩
+    simp only [Option.isNone_some, Bool.or_false]
+    exact JT_congr c h2 h3 h
+
+theorem JT_nochange (c : Cfg σ μ) (fs : FS) (G : Ghost σ) (t : Bool) (h : JT c fs G t) :
+    AllPre (Inv c) fs G ([] : List (Ev σ)) ∧
+      JT c (applyEvs fs ([] : List (Ev σ))) (G.run ([] : List (Ev σ))) (t || false) := by
+  simp only [Bool.or_false]
+  exact ⟨JT.inv h, h⟩
+
+theorem callF_preT (c : Cfg σ μ) (fs : FS) (G : Ghost σ) (mem : Mem σ) (t : Bool) (sf : Option SaveFault)
+    (cl : Call μ) (h : JT c fs G t) :
+    AllPre (Inv c) fs G (callStepF c mem sf cl).2.1 ∧
+      JT c (applyEvs fs (callStepF c mem sf cl).2.1) (G.run (callStepF c mem sf cl).2.1)
+        (t || savedBy c mem sf cl) := by
+  cases cl with
+  | «mut» m =>
+    cases h2 : (c.step mem.cur m).2 with
+    | false => simpa [callStepF, savedBy, h2] using JT_nochange c fs G t h
+    | true =>
+      by_cases ha : mem.async = 0
+      · simpa [callStepF, savedBy, h2, ha] using JT_save c fs G t (c.step mem.cur m).1 sf h
+      · simpa [callStepF, savedBy, h2, ha] using JT_nochange c fs G t h
+  | setAsync => simpa [callStepF, savedBy] using JT_nochange c fs G t h
+  | setSync =>
+    by_cases hneg : mem.async - 1 < 0
+    · have hne : ¬ (mem.async - 1 = 0) := by omega
+      simpa [callStepF, savedBy, hneg, hne] using JT_nochange c fs G t h
+    · by_cases h0 : mem.async - 1 = 0
+      · cases hd : mem.dirty with
+        | true => simpa [callStepF, savedBy, hneg, h0, hd] using JT_save c fs G t mem.cur sf h
+        | false => simpa [callStepF, savedBy, hneg, h0, hd] using JT_nochange c fs G t h
+      · simpa [callStepF, savedBy, hneg, h0] using JT_nochange c fs G t h
+
+theorem callsF_preT (c : Cfg σ μ) (fs : FS) (G : Ghost σ) (mem : Mem σ) (t : Bool)
+    (cls : List (Call μ × Option SaveFault)) (h : JT c fs G t) :
+    AllPre (Inv c) fs G (runCallsF c mem t cls).2.1 ∧
+      JT c (applyEvs fs (runCallsF c mem t cls).2.1) (G.run (runCallsF c mem t cls).2.1)
+        (runCallsF c mem t cls).2.2 := by
+  induction cls generalizing fs G mem t with
+  | nil => exact ⟨JT.inv h, h⟩
+  | cons cl rest ih =>
+    simp only [runCallsF]
+    obtain ⟨h1, h2⟩ := callF_preT c fs G mem t cl.2 cl.1 h
+    obtain ⟨h3, h4⟩ := ih _ _ (callStepF c mem cl.2 cl.1).1 _ h2
+    refine ⟨AllPre_append h1 h3, ?_⟩
+    rw [applyEvs_append, Ghost.run_append]
+    exact h4
+
 /-! ## `finalize` and `__init__` with faults -/
 
 def unlockOps (locked : Bool) (ff : FinFault) : List Op :=
@@ -223,30 +287,61 @@ theorem unlockOps_harmless (locked : Bool) (ff : FinFault) : ∀ o ∈ unlockOps
   intro o ho
   cases locked <;> cases hu : ff.unlock <;> simp [unlockOps, hu] at ho <;> subst ho <;> simp [Op.harmless]
 
-theorem finOpsF_eq (fs : FS) (locked : Bool) (ff : FinFault) :
-    finOpsF fs locked ff = commitF fs false ff.commit ++ unlockOps locked ff := rfl
+theorem finOpsF_eq (fs : FS) (locked vfy : Bool) (ff : FinFault) :
+    finOpsF fs locked vfy ff = commitF fs vfy ff.commit ++ unlockOps locked ff := rfl
 
-theorem finF_pre (c : Cfg σ μ) (fs : FS) (G : Ghost σ) (mem : Mem σ) (locked : Bool) (ff : FinFault)
-    (h : J c fs G) : AllPre (Inv c) fs G (finalizeF fs mem locked ff) := by
-  unfold finalizeF
+theorem commitF_none_harmless (fs : FS) (v : Bool) (cf : CF) (hn : fs .new = none) :
+    ∀ o ∈ commitF fs v cf, o.harmless = true := by
+  intro o ho
+  obtain ⟨pos, uf⟩ := cf
+  cases pos with
+  | none => simp [commitF, hn] at ho; subst ho; rfl
+  | some p => cases p <;> simp [commitF, hn] at ho <;> subst ho <;> rfl
+
+/-- `finalize`, given what its commit does -/
+theorem finCore_pre (c : Cfg σ μ) (fs : FS) (G : Ghost σ) (mem : Mem σ) (locked vfy endOk : Bool) (ff : FinFault)
+    (h1 : AllPre (Inv c) fs G ((commitF fs vfy ff.commit).map .op))
+    (h2 : endOk = true → InvPN c ((applyOps fs (commitF fs vfy ff.commit)) .pickle)
+      ((applyOps fs (commitF fs vfy ff.commit)) .new) (G.step .endInv)) :
+    AllPre (Inv c) fs G (finalizeCore fs mem locked vfy endOk ff) := by
+  unfold finalizeCore
+  have hpost : Inv c (applyOps fs (commitF fs vfy ff.commit)) G := by
+    have := AllPre_end h1; rwa [applyEvs_mapop, Ghost.run_mapop] at this
   split
-  · obtain ⟨h1, h2⟩ := commitF_false_pre c fs G ff.commit h
-    have h3 := harmless_ops c _ G (unlockOps locked ff) (unlockOps_harmless locked ff)
-      (by have := AllPre_end h1; rwa [applyEvs_mapop, Ghost.run_mapop] at this)
-    have h4 : AllPre (Inv c) fs G ((finOpsF fs locked ff).map .op) := by
+  · have h3 := harmless_ops c _ G (unlockOps locked ff) (unlockOps_harmless locked ff) hpost
+    have h4 : AllPre (Inv c) fs G ((finOpsF fs locked vfy ff).map .op) := by
       rw [finOpsF_eq]; exact AllPre_ops_append h1 h3.1
     refine AllPre_append h4 ?_
     rw [applyEvs_mapop, Ghost.run_mapop, finOpsF_eq, applyOps_append]
     split
     · rename_i hcond
       have h5 := h2 hcond
-      refine ⟨?_, ?_⟩
-      · exact Inv_congr c h3.2.1 h3.2.2 (by have := AllPre_end h1; rwa [applyEvs_mapop, Ghost.run_mapop] at this)
-      · show InvPN c _ _ _
-        simp only [applyEv]
-        rw [h3.2.1, h3.2.2]; exact h5
-    · exact Inv_congr c h3.2.1 h3.2.2 (by have := AllPre_end h1; rwa [applyEvs_mapop, Ghost.run_mapop] at this)
-  · exact JPN.inv h
+      refine ⟨Inv_congr c h3.2.1 h3.2.2 hpost, ?_⟩
+      show InvPN c _ _ _
+      simp only [applyEv]
+      rw [h3.2.1, h3.2.2]; exact h5
+    · exact Inv_congr c h3.2.1 h3.2.2 hpost
+  · exact AllPre_head h1
+
+/-- `finalize` of the fixed code (`vu = true`): a trusted instance commits its own save unverified, an untrusted
+one verifies whatever is left over -/
+theorem finF_preT (c : Cfg σ μ) (fs : FS) (G : Ghost σ) (mem : Mem σ) (locked t : Bool) (ff : FinFault)
+    (h : JT c fs G t) : AllPre (Inv c) fs G (finalizeF true fs mem locked t ff) := by
+  unfold finalizeF
+  cases t with
+  | true =>
+    obtain ⟨h1, h2⟩ := commitF_false_pre c fs G ff.commit h
+    exact finCore_pre c fs G mem locked _ _ ff h1 (by simpa [finVerify] using h2)
+  | false =>
+    have hu : JU c fs G := h
+    obtain ⟨h1, _⟩ := commitF_true_pre c fs G ff.commit (JU.inv hu)
+    refine finCore_pre c fs G mem locked _ _ ff h1 ?_
+    intro hc
+    simp only [Bool.false_and, Bool.or_false, Option.isNone_iff_eq_none] at hc
+    have hh := harmless_ops c fs G _ (commitF_none_harmless fs (finVerify true false) ff.commit hc) (JU.inv hu)
+    rw [hh.2.1, hh.2.2, hc]
+    obtain ⟨x, hp, _, hl, _⟩ := hu
+    exact ⟨x, hp, Or.inl hl.symm, Or.inl rfl⟩
 
 theorem lockOp_harmless (b : Bool) :
     ∀ o ∈ [(if b then Op.failed .lockOpen .lock else Op.createExcl .lock)], o.harmless = true := by
@@ -264,32 +359,23 @@ theorem applyOps_loadOps (fs : FS) : applyOps fs (loadOps fs) = fs := by
   unfold loadOps
   cases fs .pickle <;> simp [applyOps, applyOp]
 
-theorem commitF_none_harmless (fs : FS) (v : Bool) (cf : CF) (hn : fs .new = none) :
-    ∀ o ∈ commitF fs v cf, o.harmless = true := by
-  intro o ho
-  obtain ⟨pos, uf⟩ := cf
-  cases pos with
-  | none => simp [commitF, hn] at ho; subst ho; rfl
-  | some p => cases p <;> simp [commitF, hn] at ho <;> subst ho <;> rfl
+/-- the error-path `finalize()` of the fixed `__init__` (untrusted: verifies) keeps the invariant -/
+theorem finOpsF_true_pre (c : Cfg σ μ) (fs : FS) (G : Ghost σ) (locked : Bool) (ff : FinFault) (h : Inv c fs G) :
+    AllPre (Inv c) fs G ((finOpsF fs locked true ff).map .op) := by
+  obtain ⟨h1, _⟩ := commitF_true_pre c fs G ff.commit h
+  have hpost : Inv c (applyOps fs (commitF fs true ff.commit)) G := by
+    have := AllPre_end h1; rwa [applyEvs_mapop, Ghost.run_mapop] at this
+  rw [finOpsF_eq]
+  exact AllPre_ops_append h1 (harmless_ops c _ G _ (unlockOps_harmless locked ff) hpost).1
 
-theorem finOpsF_none_harmless (fs : FS) (locked : Bool) (ff : FinFault) (hn : fs .new = none) :
-    ∀ o ∈ finOpsF fs locked ff, o.harmless = true := by
-  intro o ho
-  rw [finOpsF_eq] at ho
-  rcases List.mem_append.mp ho with h | h
-  · exact commitF_none_harmless fs false ff.commit hn o h
-  · exact unlockOps_harmless locked ff o h
-
-/-- `__init__` with faults, start-up commit not obstructed -/
-theorem initF_pre (c : Cfg σ μ) (hc : c.Lawful) (fs : FS) (G : Ghost σ) (ift : InitFault) (hs : ift.StartOK)
-    (h : Inv c fs G) :
-    AllPre (Inv c) fs G (initF c fs ift).evs ∧
-    (∀ x, (initF c fs ift).res = .ok x →
-      J c (applyEvs fs (initF c fs ift).evs) (G.run (initF c fs ift).evs) ∧ Adm G x) := by
+/-- `__init__` of the fixed code with arbitrary faults (no `StartOK`) -/
+theorem initF_preU (c : Cfg σ μ) (hc : c.Lawful) (fs : FS) (G : Ghost σ) (ift : InitFault) (h : Inv c fs G) :
+    AllPre (Inv c) fs G (initF c true fs ift).evs ∧
+    (∀ x, (initF c true fs ift).res = .ok x →
+      JT c (applyEvs fs (initF c true fs ift).evs) (G.run (initF c true fs ift).evs) false ∧ Adm G x) := by
   unfold initF
   split
-  · -- refused
-    have hh : ∀ o ∈ [Op.createExcl .lock], o.harmless = true := by simp [Op.harmless]
+  · have hh : ∀ o ∈ [Op.createExcl .lock], o.harmless = true := by simp [Op.harmless]
     refine ⟨(harmless_ops c fs G _ hh h).1, ?_⟩
     intro x hx; cases hx
   · simp only
@@ -299,12 +385,13 @@ theorem initF_pre (c : Cfg σ μ) (hc : c.Lawful) (fs : FS) (G : Ghost σ) (ift 
     have h1 : Inv c (applyOp fs lockOp) G := Inv_congr c a2 a3 h
     have hfs1 : applyOps fs [lockOp] = applyOp fs lockOp := rfl
     generalize applyOp fs lockOp = fs1 at h1 hfs1 ⊢
-    obtain ⟨b1, b2⟩ := commitF_true_pre c fs1 G ift.commit h1
-    obtain ⟨x, hp, hax, hnn⟩ := b2 hs.1 hs.2
+    obtain ⟨b1, _⟩ := commitF_true_pre c fs1 G ift.commit h1
     have h2 : Inv c (applyOps fs1 (commitF fs1 true ift.commit)) G := by
       have := AllPre_end b1; rwa [applyEvs_mapop, Ghost.run_mapop] at this
-    generalize commitF fs1 true ift.commit = cops at b1 hp hnn h2 ⊢
-    generalize hfs2 : applyOps fs1 cops = fs2 at hp hnn h2 ⊢
+    generalize commitF fs1 true ift.commit = cops at b1 h2 ⊢
+    generalize hfs2 : applyOps fs1 cops = fs2 at h2 ⊢
+    obtain ⟨x, hp, hax, hnn⟩ := h2
+    have h2 : Inv c fs2 G := ⟨x, hp, hax, hnn⟩
     have hld : loadDisk c fs2 = .ok x := loadDisk_ok c hc fs2 x hp
     have hhead : ∀ (rest : List Op), AllPre (Inv c) fs2 G (rest.map .op) →
         AllPre (Inv c) fs G (([lockOp] ++ (cops ++ rest)).map .op) := by
@@ -317,16 +404,14 @@ theorem initF_pre (c : Cfg σ μ) (hc : c.Lawful) (fs : FS) (G : Ghost σ) (ift 
       intro rest
       rw [applyOps_append, hfs1, applyOps_append, hfs2]
     split
-    · -- the state file cannot be opened: ParseError, finalize, raise
-      refine ⟨?_, fun y hy => by cases hy⟩
-      have hall : ∀ o ∈ [Op.stat .pickle, Op.failed .open .pickle] ++ finOpsF fs2 (!ift.lock) ift.fin,
-          o.harmless = true := by
-        intro o ho
-        rcases List.mem_append.mp ho with ho | ho
-        · simp at ho; rcases ho with ho | ho <;> subst ho <;> rfl
-        · exact finOpsF_none_harmless fs2 _ _ hnn o ho
-      have := hhead _ (harmless_ops c fs2 G _ hall h2).1
-      simpa [List.append_assoc] using this
+    · refine ⟨?_, fun y hy => by cases hy⟩
+      have hso : ∀ o ∈ [Op.stat .pickle, Op.failed .open .pickle], o.harmless = true := by
+        intro o ho; simp at ho; rcases ho with ho | ho <;> subst ho <;> rfl
+      obtain ⟨c1, _, _⟩ := harmless_ops c fs2 G _ hso h2
+      have e : applyOps fs2 [Op.stat .pickle, Op.failed .open .pickle] = fs2 := rfl
+      have hfin := finOpsF_true_pre c fs2 G (!ift.lock) ift.fin h2
+      have := hhead _ (AllPre_ops_append (b := finOpsF fs2 (!ift.lock) true ift.fin) c1 (by rw [e]; exact hfin))
+      simpa [List.append_assoc, finVerify] using this
     · rw [hld]
       simp only
       have hA : AllPre (Inv c) fs G (([lockOp] ++ (cops ++ loadOps fs2)).map .op) :=
@@ -343,42 +428,41 @@ theorem initF_pre (c : Cfg σ μ) (hc : c.Lawful) (fs : FS) (G : Ghost σ) (ift 
       · intro y hy
         cases hy
         rw [applyEvs_append, Ghost.run_append, hfsA, hGA]
-        exact ⟨⟨x, hp, hax, Or.inl ⟨hnn, rfl⟩⟩, hax⟩
+        exact ⟨⟨x, hp, hax, rfl, hnn⟩, hax⟩
 
-/-! ## whole invocations, sessions -/
+/-! ## whole invocations, sessions (fixed code) -/
 
-theorem runInvF_pre (c : Cfg σ μ) (hc : c.Lawful) (fs : FS) (G : Ghost σ) (iv : InvF μ) (hs : iv.init.StartOK)
-    (h : Inv c fs G) : AllPre (Inv c) fs G (runInvF c fs iv) := by
-  obtain ⟨h1, h2⟩ := initF_pre c hc fs G iv.init hs h
+theorem runInvF_pre (c : Cfg σ μ) (hc : c.Lawful) (fs : FS) (G : Ghost σ) (iv : InvF μ)
+    (h : Inv c fs G) : AllPre (Inv c) fs G (runInvF c true fs iv) := by
+  obtain ⟨h1, h2⟩ := initF_preU c hc fs G iv.init h
   unfold runInvF
-  cases hr : (initF c fs iv.init).res with
+  cases hr : (initF c true fs iv.init).res with
   | error e => simpa [hr] using h1
   | ok x =>
     simp only [hr]
     obtain ⟨hj, _⟩ := h2 x hr
-    obtain ⟨h3, h4⟩ := callsF_pre c _ _ (memOf c x) iv.calls hj
-    have h5 := finF_pre c _ _ (runCallsF c (memOf c x) iv.calls).1 (initF c fs iv.init).locked iv.fin h4
+    obtain ⟨h3, h4⟩ := callsF_preT c _ _ (memOf c x) false iv.calls hj
+    have h5 := finF_preT c _ _ (runCallsF c (memOf c x) false iv.calls).1 (initF c true fs iv.init).locked _ iv.fin h4
     refine AllPre_append (AllPre_append h1 h3) ?_
     rw [applyEvs_append, Ghost.run_append]
     exact h5
 
 theorem runSessionsF_inv (c : Cfg σ μ) (hc : c.Lawful) (ss : List (SessionF μ)) (fs : FS) (G : Ghost σ)
-    (hd : ∀ s ∈ ss, s.Det) (hs : ∀ s ∈ ss, s.iv.init.StartOK) (h : Inv c fs G) :
-    Inv c (runSessionsF c fs G ss).1 (runSessionsF c fs G ss).2 := by
+    (hd : ∀ s ∈ ss, s.Det) (h : Inv c fs G) :
+    Inv c (runSessionsF c true fs G ss).1 (runSessionsF c true fs G ss).2 := by
   induction ss generalizing fs G with
   | nil => exact h
   | cons s rest ih =>
     simp only [runSessionsF]
-    apply ih _ _ (fun t ht => hd t (List.mem_cons_of_mem _ ht)) (fun t ht => hs t (List.mem_cons_of_mem _ ht))
-    have hs0 := hs s List.mem_cons_self
+    apply ih _ _ (fun t ht => hd t (List.mem_cons_of_mem _ ht))
     cases s with
-    | complete iv => exact AllPre_end (runInvF_pre c hc fs G iv hs0 h)
+    | complete iv => exact AllPre_end (runInvF_pre c hc fs G iv h)
     | crashed iv cut g =>
       have hg : Detectable g := hd _ List.mem_cons_self
-      exact Inv_recover c _ _ g hg (AllPre_take (runInvF_pre c hc fs G iv hs0 h) cut)
+      exact Inv_recover c _ _ g hg (AllPre_take (runInvF_pre c hc fs G iv h) cut)
 
-theorem runSessionsF_lock (c : Cfg σ μ) (l : List (SessionF μ)) (iv : InvF μ) (cut : Nat) (g : Garble) (fs : FS)
-    (G : Ghost σ) : (runSessionsF c fs G (l ++ [.crashed iv cut g])).1 .lock = none := by
+theorem runSessionsF_lock (c : Cfg σ μ) (vu : Bool) (l : List (SessionF μ)) (iv : InvF μ) (cut : Nat) (g : Garble)
+    (fs : FS) (G : Ghost σ) : (runSessionsF c vu fs G (l ++ [.crashed iv cut g])).1 .lock = none := by
   induction l generalizing fs G with
   | nil => simp [runSessionsF, runSessionF, recover_lock]
   | cons s l ih => simpa [runSessionsF] using ih _ _
@@ -394,7 +478,7 @@ theorem initRun_clean (c : Cfg σ μ) (hc : c.Lawful) (fs : FS) (s : σ) (b : Bo
 
 theorem save_fin_durable (c : Cfg σ μ) (hc : c.Lawful) (fs : FS) (s : σ) (locked : Bool) (g : Garble) :
     let fs1 := applyEvs fs (saveEvs c s)
-    let fs2 := applyOps fs1 (finOpsF fs1 locked FinFault.none)
+    let fs2 := applyOps fs1 (finOpsF fs1 locked false FinFault.none)
     fs2 .pickle = some ⟨encS c s, true⟩ ∧ fs2 .new = none ∧ (locked = true → fs2 .lock = none) ∧
       (initRun c (recover fs2 g)).res = .ok (some s) := by
   intro fs1 fs2
